@@ -131,13 +131,15 @@ def extract(profile='dev', repo=REPO, packages=None, tag=None):
 class Ctx:
     """what a rule module gets: lazily extracted fact bases"""
 
-    def __init__(self, tier='quick', repo=REPO):
+    def __init__(self, tier='quick', repo=REPO, profile='dev'):
         self.tier = tier
         self.repo = repo
+        self.profile = profile
         self._facts = {}
         self.configs = []
 
-    def facts(self, profile='dev'):
+    def facts(self, profile=None):
+        profile = profile or self.profile
         if profile not in self._facts:
             d = extract(profile, self.repo)
             self._facts[profile] = mir.Facts(d)
@@ -165,10 +167,12 @@ class Check:
         self.not_decided = []
         self.explanation = ''
         self.trusted = []
+        self.suffix = ''
         self.t0 = time.time()
 
     def ob(self, rule, key, ok, where='', detail='', nontrivial=True, data=None):
         """record an obligation. key is stable (no line numbers)."""
+        key = key + self.suffix
         rec = {'rule': rule, 'key': key, 'ok': bool(ok), 'where': where, 'detail': detail,
                'nontrivial': nontrivial, 'data': data}
         for i, o in enumerate(self.obs):
